@@ -410,6 +410,10 @@ func firstLine(s string) string {
 // runSolver runs one solver on the query text. The query must not contain
 // (check-sat); it is appended here, and (get-model) only on a second run.
 func runSolver(sp solverSpec, query string, timeout time.Duration, wantModel bool) SolverResult {
+	return runSolverCtx(context.Background(), sp, query, timeout, wantModel)
+}
+
+func runSolverCtx(parent context.Context, sp solverSpec, query string, timeout time.Duration, wantModel bool) SolverResult {
 	dir, err := os.MkdirTemp("", "govc-q")
 	if err != nil {
 		return SolverResult{Answer: "error", Output: err.Error()}
@@ -427,7 +431,7 @@ func runSolver(sp solverSpec, query string, timeout time.Duration, wantModel boo
 		return SolverResult{Answer: "error", Output: err.Error()}
 	}
 	args := sp.args(int(timeout/time.Millisecond), solverSeed, file)
-	ctx, cancel := context.WithTimeout(context.Background(), timeout+2*time.Second)
+	ctx, cancel := context.WithTimeout(parent, timeout+2*time.Second)
 	defer cancel()
 	cmd := exec.CommandContext(ctx, args[0], args[1:]...)
 	var out bytes.Buffer
@@ -447,7 +451,9 @@ func runSolver(sp solverSpec, query string, timeout time.Duration, wantModel boo
 		if i := strings.IndexByte(o, '\n'); i >= 0 {
 			res.Model = o[i+1:]
 		}
-	case ans == "unknown" || ans == "timeout" || ctx.Err() != nil:
+	case parent.Err() != nil:
+		res.Answer = "cancelled"
+	case ans == "unknown" || ans == "timeout" || ctx.Err() != nil || strings.Contains(o, "interrupted by timeout"):
 		res.Answer = "unknown"
 		if ctx.Err() != nil || strings.Contains(o, "timeout") {
 			res.Answer = "timeout"
@@ -480,26 +486,62 @@ func Solve(query string, timeout time.Duration, all bool) SolverResult {
 	var tried []string
 	var last SolverResult
 	var definitive *SolverResult
-	for _, sp := range solvers {
-		r := runSolver(sp, query, timeout, false)
-		tried = append(tried, fmt.Sprintf("%s:%s:%.2fs", sp.name, r.Answer, r.Seconds))
-		if r.Answer == "error" {
-			last = r
-			continue
-		}
-		if r.Answer == "sat" || r.Answer == "unsat" {
-			if definitive == nil {
-				rr := r
-				definitive = &rr
-				if !all {
-					break
-				}
-			} else if definitive.Answer != r.Answer {
-				return SolverResult{Answer: "error", Solver: "disagreement", Output: strings.Join(tried, " "), Tried: tried}
+	if all {
+		for _, sp := range solvers {
+			r := runSolver(sp, query, timeout, false)
+			tried = append(tried, fmt.Sprintf("%s:%s:%.2fs", sp.name, r.Answer, r.Seconds))
+			if r.Answer == "error" {
+				last = r
+				continue
 			}
-			continue
+			if r.Answer == "sat" || r.Answer == "unsat" {
+				if definitive == nil {
+					rr := r
+					definitive = &rr
+				} else if definitive.Answer != r.Answer {
+					return SolverResult{Answer: "error", Solver: "disagreement", Output: strings.Join(tried, " "), Tried: tried}
+				}
+				continue
+			}
+			last = r
 		}
-		last = r
+	} else {
+		// staggered race: z3-new at once, cvc5 after 0.3 s, z3 4.8 after 2 s;
+		// the first definitive answer wins and the others are killed
+		ctx, cancel := context.WithCancel(context.Background())
+		type tagged struct {
+			r SolverResult
+		}
+		ch := make(chan tagged, len(solvers))
+		delays := []time.Duration{0, 300 * time.Millisecond, 2 * time.Second}
+		for i, sp := range solvers {
+			go func(sp solverSpec, d time.Duration) {
+				select {
+				case <-ctx.Done():
+					ch <- tagged{SolverResult{Solver: sp.name, Answer: "cancelled"}}
+					return
+				case <-time.After(d):
+				}
+				ch <- tagged{runSolverCtx(ctx, sp, query, timeout, false)}
+			}(sp, delays[i%len(delays)])
+		}
+		for range solvers {
+			t := <-ch
+			if t.r.Answer == "cancelled" {
+				continue
+			}
+			tried = append(tried, fmt.Sprintf("%s:%s:%.2fs", t.r.Solver, t.r.Answer, t.r.Seconds))
+			if (t.r.Answer == "sat" || t.r.Answer == "unsat") && definitive == nil {
+				rr := t.r
+				definitive = &rr
+				cancel()
+				continue
+			}
+			if t.r.Answer != "error" || last.Answer == "" {
+				last = t.r
+			}
+		}
+		cancel()
 	}
 	if definitive != nil {
 		res := *definitive
